@@ -1,4 +1,5 @@
 import Avfs.OSType
+import Avfs.Volumes
 /-
   C17 — OS-type emulation does not depend on the host.
   Decision logic of SetOSType stated outright; the agreement of the Windows-typed and Linux-typed emulations on portable
@@ -24,3 +25,141 @@ theorem C17_separator (os : OS) : pathSeparator os = (if os = .windows then 92 e
   cases os <;> rfl
 
 end Avfs.OSType
+
+/-! ### Volume management (VolumeAdd / VolumeDelete / VolumeList of a Windows-typed MemFS)
+  The model `Avfs.Volumes` is compared call by call with the implementation by `corr volumes` (all sequences of
+  volume-management calls over a few volume names, with a file created in and listed from the volumes in between). -/
+namespace Avfs.Volumes
+open Avfs Avfs.Path
+
+theorem lookup_isSome_iff_mem_keys {κ ν : Type} [DecidableEq κ] (k : κ) (l : List (κ × ν)) :
+    (AL.lookup k l).isSome ↔ k ∈ AL.keys l := by
+  induction l with
+  | nil => simp [AL.keys]
+  | cons p l ih =>
+    obtain ⟨k', v⟩ := p
+    by_cases h : k' = k
+    · simp [AL.lookup, AL.keys, h]
+    · have h' : ¬ k = k' := fun e => h e.symm
+      simp only [AL.lookup, h, if_false, AL.keys, List.map_cons, List.mem_cons, h', false_or]
+      simpa [AL.keys] using ih
+
+theorem mem_dedup (a : Bytes) (l : List Bytes) : a ∈ dedup l ↔ a ∈ l := by
+  induction l with
+  | nil => simp [dedup]
+  | cons b l ih =>
+    unfold dedup
+    split
+    · rename_i hb
+      rw [ih]; constructor
+      · exact fun h => List.mem_cons_of_mem _ h
+      · intro h; rcases List.mem_cons.1 h with e | e
+        · subst e; exact hb
+        · exact e
+    · simp [ih]
+
+theorem nodup_dedup (l : List Bytes) : (dedup l).Nodup := by
+  induction l with
+  | nil => simp [dedup]
+  | cons b l ih =>
+    unfold dedup
+    split
+    · exact ih
+    · rename_i hb
+      exact List.nodup_cons.2 ⟨fun h => hb ((mem_dedup b l).1 h), ih⟩
+
+/-- VolumeList = exactly the volumes that exist, each once -/
+theorem C17_list_iff (s : VState) (v : Bytes) : v ∈ list s ↔ (names s v).isSome := by
+  simp only [list, names, mem_dedup, lookup_isSome_iff_mem_keys, AL.keys]
+
+theorem C17_list_nodup (s : VState) : (list s).Nodup := by
+  simp only [list]; exact nodup_dedup _
+
+/-- a successful VolumeAdd makes an EMPTY volume named `VolumeName(path)` -/
+theorem C17_add_empty (s s' : VState) (p : Bytes) (h : add s p = (s', none)) :
+    names s' (volumeName .windows p) = some [] := by
+  unfold add at h
+  simp only at h
+  split at h
+  · simp at h
+  · split at h
+    · simp at h
+    · simp at h; subst h; simp [names]
+
+/-- VolumeAdd succeeds exactly on a path with a volume name that names no existing volume -/
+theorem C17_add_ok_iff (s : VState) (p : Bytes) :
+    (add s p).2 = none ↔ (volumeName .windows p ≠ [] ∧ names s (volumeName .windows p) = none) := by
+  unfold add names
+  simp only
+  by_cases h1 : (volumeName .windows p).isEmpty
+  · simp [h1]; intro h; simp [List.isEmpty_iff] at h1; exact absurd h1 h
+  · by_cases h2 : (AL.lookup (volumeName .windows p) s.vols).isSome
+    · simp [h1, h2]; intro _; cases hh : AL.lookup (volumeName OS.windows p) s.vols <;> simp_all
+    · simp [h1, h2]; simp [List.isEmpty_iff] at h1; simp_all
+
+/-- a successful VolumeDelete removes the volume: it is not listed and nothing can be reached in it -/
+theorem C17_delete_gone (s s' : VState) (p : Bytes) (h : delete s p = (s', none)) :
+    names s' (volumeName .windows p) = none ∧ volumeName .windows p ∉ list s' := by
+  have h1 : names s' (volumeName .windows p) = none := by
+    unfold delete at h
+    simp only at h
+    split at h
+    · simp at h
+    · split at h
+      · simp at h
+      · simp at h; subst h; simp [names]
+  refine ⟨h1, ?_⟩
+  rw [C17_list_iff, h1]; simp
+
+/-- deleting a volume and adding it again gives an empty volume: nothing of the old one comes back
+    (whatever happened in between on other volumes is covered by `C17_others_untouched`) -/
+theorem C17_delete_add_empty (s s1 s2 : VState) (p q : Bytes) (hv : volumeName .windows p = volumeName .windows q)
+    (_h1 : delete s p = (s1, none)) (h2 : add s1 q = (s2, none)) :
+    names s2 (volumeName .windows p) = some [] := by
+  rw [hv]; exact C17_add_empty s1 s2 q h2
+
+/-- volume management calls never change another volume -/
+theorem C17_others_untouched (s : VState) (p v : Bytes) (hv : v ≠ volumeName .windows p) :
+    names (add s p).1 v = names s v ∧ names (delete s p).1 v = names s v := by
+  have hv' : volumeName .windows p ≠ v := fun e => hv e.symm
+  constructor
+  · unfold add; simp only
+    split
+    · rfl
+    · split
+      · rfl
+      · simp [names, hv']
+  · unfold delete; simp only
+    split
+    · rfl
+    · split
+      · rfl
+      · simp [names, hv']
+
+/-- creating a file in a volume shows in that volume and in no other -/
+theorem C17_touch (s s' : VState) (vol n : Bytes) (h : touch s vol n = (s', none)) :
+    (∃ ns, names s' vol = some ns ∧ n ∈ ns) ∧ ∀ v, v ≠ vol → names s' v = names s v := by
+  unfold touch at h
+  split at h
+  · simp at h
+  · rename_i ns hl
+    simp at h; subst h
+    constructor
+    · refine ⟨(if n ∈ ns then ns else n :: ns), by simp [names], ?_⟩
+      split
+      · rename_i hc; simpa using hc
+      · simp
+    · intro v hv
+      have hv' : vol ≠ v := fun e => hv e.symm
+      simp [names, hv']
+
+/-- non-vacuity: the life cycle on a concrete state -/
+example : let s0 := init [[85]]
+    let s1 := (add s0 [68, 58]).1
+    let s2 := (touch s1 [68, 58] [102]).1
+    let s3 := (delete s2 [68, 58, 92, 120]).1
+    let s4 := (add s3 [68, 58]).1
+    names s2 [68, 58] = some [[102]] ∧ names s3 [68, 58] = none ∧ names s4 [68, 58] = some [] ∧
+    names s4 defaultVolume = some [[85]] := by decide +kernel
+
+end Avfs.Volumes
